@@ -84,6 +84,9 @@ Definition min_violation (nd : node) (sx : list bool) (a : assignment) (c : nat)
 Definition children_min (nd : node) (c : nat) : list node :=
   {| n_cancel := n_cancel nd; n_enf := n_enf nd ++ [c]; n_shrink := n_shrink nd |} ::
   (if c_fixed (crs c) then [] else [{| n_cancel := n_cancel nd ++ [c]; n_enf := n_enf nd; n_shrink := n_shrink nd |}]).
+(* the room stage (check_room_feasibility): None = the assignment fits the rooms, Some bs = the node is answered Infeasible with
+   branches bs.  Abstract here (the theorems of C01/C02/C08 hold for every such function); Rooms.v defines the real one. *)
+Variable rgate : node -> assignment -> out (option (list node)).
 (* the course to branch on / wrong-course heuristic are needed for optimality, not for C01: abstracted as a function *)
 Variable pick_branches : node -> list bool -> assignment -> list node.
 
@@ -110,8 +113,21 @@ Definition run_node (nd : node) : out nres :=
   | Ok (mm, mscore, _, _) =>
     let a := add_instr nd (amatch sy mm) in
     let score := (mscore + instr_score nd)%Z in
-    if existsb (wrong_course sx a) (seq 0 np) || existsb (min_violation nd sx a) (seq 0 nc)
-    then Val (Infeasible (pick_branches nd sx a) score)
-    else Val (Feasible a score)
+    match rgate nd a with
+    | Panic site => Panic site
+    | HOverflow => HOverflow
+    | Val (Some bs) => Val (Infeasible bs score)
+    | Val None =>
+      (* check_feasibility: the wrong-course test returns first; afterwards the minimum loop asserts that no enforced course
+         misses its minimum (site 5) *)
+      if negb (existsb (wrong_course sx a) (seq 0 np)) && existsb (fun c => min_violation nd sx a c && memb c (n_enf nd)) (seq 0 nc)
+      then Panic 5 else
+      if existsb (wrong_course sx a) (seq 0 np) || existsb (min_violation nd sx a) (seq 0 nc)
+      then Val (Infeasible (pick_branches nd sx a) score)
+      else Val (Feasible a score)
+    end
   end.
 End Cao.
+
+(* no room list given: the room stage is skipped *)
+Definition no_rooms : node -> assignment -> out (option (list node)) := fun _ _ => Val None.
